@@ -52,6 +52,20 @@ def run(ctx):
             for l in logs:
                 pairs.append((c, l))
     rng.shuffle(pairs)
+
+    def accessories(c, l):
+        """devices the log advertises with a user demand, that an output of the configuration can be wired to, and that the facade has no class for"""
+        items = {it["tag"]: it for it in c["items"]}
+        acc = []
+        for d in l["devices"]:
+            if d in KNOWN_UNHANDLED and any(("Ud" + d).upper() == u.upper() for u in l["demands"]):
+                outs_d = [o for o in c["outputs"] if o in items and any(x.startswith(d) for x in (items[o]["items"] or []))]
+                if outs_d:
+                    acc.append((d, outs_d))
+        return acc
+    # pairs whose log has at least two such accessories come first (two of them wired at once is its own wiring family below)
+    multi = [(c, l) for (c, l) in pairs if len(accessories(c, l)) >= 2]
+    pairs = multi[:(12 if ctx.thorough else 2)] + [p for p in pairs if p not in multi[:(12 if ctx.thorough else 2)]]
     npairs = 40 if ctx.thorough else 8
     exprs, meta, reqs = [], [], []
     used = []
@@ -103,6 +117,29 @@ def run(ctx):
                 w = {oo: ("NA" if "NA" in items[oo]["items"] else items[oo]["items"][0]) for oo in outs}
                 w[o] = lab[k2 % len(lab)]
                 wirings.append(w)
+        # accessories the facade has no class for (120 V light, TV lift, ...): alone, two at once on different outputs, all at once -
+        # they must simply not appear, whatever else is wired
+        acc = accessories(c, l)
+        base_w = {oo: ("NA" if "NA" in items[oo]["items"] else items[oo]["items"][0]) for oo in outs}
+        combos = [[a] for a in acc] + [[a, b] for i, a in enumerate(acc) for b in acc[i + 1:]] + ([acc] if len(acc) > 2 else [])
+        for combo in combos[:14]:
+            w, taken = dict(base_w), set()
+            for (d, outs_d) in combo:
+                free = [o for o in outs_d if o not in taken]
+                if not free:
+                    continue
+                o = free[0]
+                taken.add(o)
+                w[o] = [x for x in items[o]["items"] if x.startswith(d)][0]
+            if rng.random() < 0.5:
+                # plus an ordinary pump somewhere else
+                for o in outs:
+                    pl_ = [x for x in items[o]["items"] if x.startswith("P1")]
+                    if o not in taken and pl_:
+                        w[o] = pl_[0]
+                        break
+            wirings.append(w)
+            ctx.count("wirings_with_unhandled_accessories")
         reqs.append((c, l, wirings))
     for (c, l, wirings) in reqs:
         results = {seed: worker(c["stem"], l["stem"], wirings, seed) for seed in (0, 1, 7)}
@@ -113,8 +150,10 @@ def run(ctx):
             values = [w[o] for o in c["outputs"]]
             a = r0["async"]
             if "error" in a:
-                # facade construction problems belong to C11; here only wirings where the scan itself works are compared
+                # the scan of the outputs itself must cope with every wiring the configuration can express
                 ctx.count("scan_raises")
+                ctx.fail("inventory:scan_raises", "building the inventory for wiring %s raises %s" % ({k: v for k, v in w.items() if v != "NA"}, a["error"]),
+                         {"cfg": c["stem"], "log": l["stem"], "wiring": w, "error": a["error"]})
                 continue
             for seed in (0, 1, 7):
                 s = results[seed][i]["sync"]
